@@ -437,6 +437,79 @@ def TA.nextN (t : TA) (up : Nat → Bool) (it : Iter) : Nat → TA × Iter × Li
       (r.1, r.2.1, h :: r.2.2.1, r.2.2.2)
     | (t1, it1, e) => (t1, it1, [], some e)
 
+/-! ### rotation of the starting host per tier (fourth round)
+
+Property text: "for the round-robin based policies successive queries rotate the starting host within a tier so
+load is spread". Observable: drain the iterators of `m` successive `Pick`s (nothing in between) and look, per
+tier, at the FIRST host each of them offers from that tier (after the replica phases, for a token-aware policy).
+`tierBalanced` is the SPECIFICATION of "spread" for one tier with `n` listed hosts of which `d` cannot be offered
+(state down but still listed, or already offered by the replica phases): every host that can be offered is the
+first one of its tier at least ⌊m/n⌋ times and at most ⌈m/n⌉·(1+d) times — with d = 0 the same number of times ±1. -/
+
+/-- the first host of tier `t` in a drained sequence -/
+def tierFirst (tier : Host → Nat) (t : Nat) (seq : List Host) : Option Host :=
+  (seq.filter (fun h => tier h == t)).head?
+
+/-- how many of the drained sequences `seqs` offer `h` as the first host of tier `t` -/
+def firstHits (tier : Host → Nat) (t : Nat) (seqs : List (List Host)) (h : Host) : Nat :=
+  seqs.countP (fun s => tierFirst tier t s == some h)
+
+/-- ⌈m/n⌉ written with `/` and `%` -/
+def ceilDiv (m n : Nat) : Nat := m / n + (if m % n = 0 then 0 else 1)
+
+/-- SPECIFICATION of "load is spread" for one tier: `l` the listed hosts, `cand` = can be offered, `m` picks -/
+def tierBalanced (cand : Host → Bool) (l : List Host) (m : Nat) (hits : Host → Nat) : Bool :=
+  l.all (fun h => !cand h ||
+    (decide (m / l.length ≤ hits h) &&
+     decide (hits h ≤ ceilDiv m l.length * (1 + l.countP (fun x => !cand x)))))
+
+/-- the first tier (index into `layers`) that is not balanced over the drained sequences `seqs`; `none` = balanced -/
+def rotVerdict (tier : Host → Nat) (cand : Host → Bool) (layers : List (List Host)) (seqs : List (List Host)) : Option Nat :=
+  (List.range layers.length).find? (fun t =>
+    !tierBalanced cand (layers.getD t []) seqs.length (firstHits tier t seqs))
+
+/-- the hosts of the replica phases of the iterator returned by `Pick` (none for a query handed to the fallback as it is) -/
+def TA.headOf (t : TA) (up : Nat → Bool) (σ : List Host → List Host) (rk : Option (Nat × Nat)) : List Host :=
+  match rk with
+  | none => []
+  | some (ks, tok) =>
+    match t.replicasFor ks tok with
+    | .hosts l fromTable => taHead t.pol.tier t.pol.maxTier up t.nonlocal (if fromTable && t.shuffle then σ l else l)
+    | _ => []
+
+/-- what the drained iterator offers AFTER its replica phases (the fallback iterator minus the hosts used) -/
+def TA.fbPart (t : TA) (up : Nat → Bool) (σ : List Host → List Host) (rk : Option (Nat × Nat)) : Scan :=
+  match rk with
+  | none => t.pol.pickScan up
+  | some (ks, tok) =>
+    match t.replicasFor ks tok with
+    | .hosts l fromTable =>
+      let hd := taHead t.pol.tier t.pol.maxTier up t.nonlocal (if fromTable && t.shuffle then σ l else l)
+      ⟨minusUsed hd (t.pol.pickScan up).offered, (t.pol.pickScan up).crashed⟩
+    | _ => t.pol.pickScan up
+
+/-- the policy after `Pick` + full drain: the fallback policy's `Pick` has happened (the iterator asks the
+fallback iterator before it returns nil), nothing else changes -/
+def TA.drained (t : TA) : TA := { t with pol := t.pol.bump }
+
+/-- `m` successive `Pick`s, each fully drained, nothing in between; pick number `i + j` shuffles with `σs (i + j)`:
+per pick the hosts of the replica phases and what came after them -/
+def TA.rotateRun (t : TA) (up : Nat → Bool) (σs : Nat → List Host → List Host) (rk : Option (Nat × Nat)) :
+    Nat → Nat → List (List Host × Scan)
+  | _, 0 => []
+  | i, m + 1 => (t.headOf up (σs i) rk, t.fbPart up (σs i) rk) :: TA.rotateRun t.drained up σs rk (i + 1) m
+
+/-- the verdict of the op `rotate`: the first tier whose first-host histogram over the run is not balanced;
+a host can be offered after the replica phases if it is up and the replica phases did not offer it -/
+def TA.rotateVerdict (t : TA) (up : Nat → Bool) (σs : Nat → List Host → List Host) (rk : Option (Nat × Nat)) (m : Nat) : Option Nat :=
+  rotVerdict t.pol.tier (fun h => up h.id && !(t.headOf up (σs 0) rk).contains h) [t.pol.l0, t.pol.l1, t.pol.l2]
+    ((TA.rotateRun t up σs rk 0 m).map (·.2.offered))
+
+/-- the SEEDED variant C11-8 (regression, `Proofs/C11.lean`): the shift is reduced modulo the size of the first
+layer before it is used for every layer -/
+def rrSeqReduced (up : Nat → Bool) (shift : Nat) (layers : List (List Host)) : List Host :=
+  rrSeq up (match layers.head? with | some l => if l.length = 0 then shift else shift % l.length | none => shift) layers
+
 /-! ### the property's definition of "known and up", from the history of notifier calls
 
 `HostStateNotifier` has four calls. In the property's words: a host that was added (`AddHost`) and not
